@@ -256,6 +256,20 @@ func runCtrlScenario(t *testing.T, tr *tracer, idx int, seed uint64, mode string
 		r := kv.NewRand(seed*7000003 + uint64(idx))
 		w := &ctrlWorld{tr: tr, r: r, srv: kv.NewServer(), perturb: r.Chance(2, 3), start: time.Now()}
 		w.ctx, w.cancel = context.WithCancel(context.Background())
+		if w.perturb {
+			// the scheduling point before every publication of the controller: a goroutine that publishes may be
+			// descheduled there for a while (the order of publication must not depend on it)
+			yield := func(site string) {
+				n := atomic.AddUint64(&w.hookN, 1)
+				h := n*0xD6E8FEB86659FD93 ^ uint64(len(site))
+				h ^= h >> 31
+				if h%2 == 0 {
+					time.Sleep(time.Duration(1+h%400) * time.Microsecond)
+				}
+			}
+			kcache.VerifYield.Store(&yield)
+			defer kcache.VerifYield.Store(nil)
+		}
 		switch mode {
 		case "c04":
 			w.period = 10000 * time.Hour // only the watch can deliver
